@@ -237,6 +237,42 @@ CLAIMED = {
         design_ref="DESIGN.md §6 C16",
         note="Trusted: Coq kernel + vm_compute; the panic-site scanner and its reviewed list; catch_unwind in the runner.",
         technique="Coq model of the readers with explicit panic outcome + no-panic theorems + exact model/impl correspondence + panic-site enumeration + fuzz of library and binary"),
+    "C18": dict(
+        text="Coq model of the writers (Display) and readers (FromStr) of every record of the text formats (Model/Parse.v, the "
+             "readers are those of C16). Theorems: C18_fields (a line made of clean tokens joined by ', ' and followed by ' # "
+             "comment' splits back into exactly these tokens and this comment, for ANY tokens and ANY trimmed comment), "
+             "C18_stored_comments_are_trimmed (comments as stored meet that hypothesis), C18_id, C18_figure (a figure written "
+             "with d >= 1 decimals reads back as the f32 nearest to the written decimal), and the round trip of each record: "
+             "C18_consumption_line, C18_production_line, C18_auxiliary_line (service re-assigned by normalize), "
+             "C18_output_line, C18_demand_line, C18_factor_line — same id, tags and comment, every value at the written "
+             "precision (with C17_figures_at_precision: within half a unit of the last decimal). C18_empty_values_refuted: a "
+             "component without values does not read back (hypothesis v <> []). The tie to the code: Display of the "
+             "implementation compared character by character with show_components / show_factors on generated files; the "
+             "written factor text parsed by model and implementation; on the implementation: written text read back and "
+             "compared (metadata, tags, ids, comments, demands, values at 2 / 3 decimals), the saved files re-evaluated and "
+             "compared with the original evaluation within the written precision, the same through cteepbd --oc / --of. "
+             "PARTIAL: the file-level round trip (line splitting, metadata lines, re-normalisation of the text read back) is "
+             "decided on the implementation only. One known finding (rounding can create one more automatic completion).",
+        design_ref="DESIGN.md §6 C18",
+        note="Trusted: Coq kernel + vm_compute; the model's readers are tied to the code by the exact correspondence of C16.",
+        technique="Coq model of Display/FromStr + per-record round-trip theorems + char-exact Display correspondence + read-back and re-evaluation oracle"),
+    "C14": dict(
+        text="Theorems over the balance model, without load matching, for one more EL_INSITU production component with "
+             "non-negative values appended to ANY component set (values 0 or >= 0.01 kWh): C14_grid_delivered_never_grows, "
+             "C14_exported_never_shrinks (total and cogenerated exports), and C14_nren_co2_never_grow: under any factor set "
+             "that is regular for the electricity carrier before and after (the regulatory sets are, RerFacts.regular_*), "
+             "with non-negative grid and cogeneration factors and k_exp in [0,1], the non-renewable primary energy and the "
+             "emissions of the electricity carrier do not grow, in step A and in step B; every regime of a time step is "
+             "covered, including the switch of the priority branch caused by the new component (PvFacts.step_prio / "
+             "step_pv_only / step_new_pv). C14_rer_with_renewable_cogeneration_refuted: the RER statement is false with "
+             "renewable-fuelled cogeneration (known finding). The tie to the code: model/implementation correspondence on "
+             "the generated bases, and the property itself evaluated on implementation outputs of (building, building + "
+             "extra EL_INSITU line) pairs: four regulatory locations, k_exp in [0,1], with and without load matching. "
+             "PARTIAL: the load matching mode, the RER statement and the sum over carriers (the other carriers do not see "
+             "the new component) are decided by the differential run only.",
+        design_ref="DESIGN.md §6 C14",
+        note="Trusted: Coq kernel + vm_compute; closed form of the weighted energy (RerFacts.carrier_closed) under 'regular' factor sets; model tied by differential testing.",
+        technique="Coq proof (per-step case analysis, annual sums, closed form of weighted energy) + refutation witness + correspondence + metamorphic oracle"),
 }
 
 PENDING_REASON = "not claimed yet in this round: model/theorems for this property are still being built (see DESIGN.md §10 order of work)"
